@@ -61,6 +61,7 @@ pub fn gen_plan(seed: u64, entry: Entry, layer: FaultLayer, thorough: bool) -> F
         allow_restart: false,
         allow_seed: false,
         foreign_lock_pct: 0,
+        allow_empty_payload: false,
     };
     let mut ops = seq::gen_ops(&mut r, &p, n_clients, &cfg, page_size.unwrap_or(4096));
     ops.retain(|o| !matches!(o, Op::Advance { .. }));
